@@ -205,6 +205,7 @@ type DFSResult struct {
 	ByDeviation         map[int]int    `json:"by_deviation"`
 	InconclusiveReasons map[string]int `json:"inconclusive_reasons,omitempty"`
 	UnstableSigs        map[string]int `json:"unstable_sigs,omitempty"`
+	UnstableSamples     []string       `json:"unstable_samples,omitempty"`
 }
 
 func (r *DFSResult) merge(o DFSResult) {
@@ -224,6 +225,9 @@ func (r *DFSResult) merge(o DFSResult) {
 	}
 	for k, v := range o.ByDeviation {
 		r.ByDeviation[k] += v
+	}
+	if len(r.UnstableSamples) < 5 {
+		r.UnstableSamples = append(r.UnstableSamples, o.UnstableSamples...)
 	}
 	for k, v := range o.UnstableSigs {
 		if r.UnstableSigs == nil {
@@ -352,6 +356,9 @@ func (e *explorer) account(x *X) {
 				r.UnstableSigs = map[string]int{}
 			}
 			r.UnstableSigs[x.fail.Sig]++
+			if len(r.UnstableSamples) < 5 {
+				r.UnstableSamples = append(r.UnstableSamples, fmt.Sprintf("%s: %s | %v", x.fail.Sig, x.fail.Msg, x.notes))
+			}
 			r.Exhaustive = false
 			return
 		}
@@ -475,12 +482,13 @@ func (d *DFS) Run() DFSResult {
 				st := e.started.Load()
 				if st != 0 && time.Since(time.Unix(0, st)) > d.HangTimeout {
 					pre, _ := e.current.Load().([]int)
-					res := newResult(d.Name)
+					// the exploring goroutine is stuck for good, so its counters can be read: keep what it found so far
+					res := e.res
 					res.Exhaustive = false
 					buf := make([]byte, 1<<16)
 					buf = buf[:runtime.Stack(buf, true)]
-					res.Violations = []Violation{{Sig: "hang", Msg: fmt.Sprintf("execution did not finish within %v\n%s", d.HangTimeout, firstLines(string(buf), 60)),
-						Choices: pre, Config: d.Name, Cost: 99}}
+					res.Violations = append(append([]Violation{}, res.Violations...), Violation{Sig: "hang", Msg: fmt.Sprintf("execution did not finish within %v\n%s", d.HangTimeout, firstLines(string(buf), 60)),
+						Choices: pre, Config: d.Name, Cost: 99})
 					b, _ := json.Marshal(res)
 					os.WriteFile(out, b, 0o644)
 					os.Exit(0)
@@ -636,6 +644,7 @@ func (t *DFSTotals) Fill(rep *Report, rule string, bound int) {
 	c["unstable"] = t.R.Unstable
 	if len(t.R.UnstableSigs) > 0 {
 		c["unstable_signatures"] = t.R.UnstableSigs
+		c["unstable_samples"] = t.R.UnstableSamples
 	}
 	c["truncated_at_horizon"] = t.R.Truncated
 	c["diverged_prefixes"] = t.R.Diverged
